@@ -248,7 +248,7 @@ def shrink_history(sc):
                 s2['faults']['verdicts'] = {'default': f['verdicts'].get('default'), 'table': [e for e in f['verdicts']['table'] if e[0][1] < newP]}
             s2['faults']['force'] = [e for e in f.get('force', []) if e[1] < newP]
             yield s2
-    nn = cfg['sweeper']['params']['num_nodes']
+    nn = cfg['sweeper']['params'].get('num_nodes')
     if isinstance(nn, list):
         s2 = copy.deepcopy(sc)
         c = s2['config']
@@ -346,5 +346,52 @@ def c09_injected(r, hooks=()):
             'restarts': restarts,
         },
         'max_events': 150000,
+        'max_blocks': 400,
         'axis_kind': 'adaptive',
     }
+
+
+def c09_real(r):
+    """Part B: real adaptive runs, monitors only (no script)."""
+    which = r.choice(['vdp_sdc', 'vdp_sdc', 'lorenz_sdc', 'dahlquist_sdc', 'vdp_rk', 'dahlquist_rk'])
+    P = r.choice([1, 1, 2, 3])
+    K = r.randint(2, 4)
+    e_tol = 10 ** r.uniform(-7, -3)
+    ad = {'e_tol': e_tol, 'beta': r.choice([0.8, 0.9, 0.95])}
+    if r.random() < 0.4:
+        ad['dt_slope_max'] = r.choice([2.0, 4.0])
+    if r.random() < 0.3:
+        ad['dt_min'] = 1e-6
+    if r.random() < 0.3:
+        ad['dt_rel_min_slope'] = r.choice([0.1, 0.25])
+    br = {'max_restarts': r.choice([2, 5, 10]), 'crash_after_max_restarts': r.random() < 0.5, 'restart_from_first_step': r.random() < 0.3}
+    if which.startswith('vdp'):
+        prob = {'class': 'vanderpol', 'params': {'mu': r.choice([0.5, 2.0, 5.0, 10.0]), 'newton_tol': 1e-10, 'newton_maxiter': 50, 'u0': [2.0, 0.0]}}
+        dt, T = r.choice([0.05, 0.1, 0.2]), r.choice([0.5, 1.0, 2.0])
+    elif which.startswith('lorenz'):
+        prob = {'class': 'LorenzAttractor', 'params': {'newton_tol': 1e-10, 'newton_maxiter': 50}}
+        dt, T = r.choice([0.01, 0.02, 0.05]), r.choice([0.2, 0.5])
+    else:
+        prob = {'class': 'testequation0d', 'params': {'lambdas': [[-r.uniform(0.5, 50.0), r.uniform(-5, 5)], [-r.uniform(0.1, 2.0), 0.0]], 'u0': 1.0}}
+        dt, T = r.choice([0.05, 0.1, 0.25]), r.choice([1.0, 2.0])
+    if which.endswith('rk'):
+        sweeper = {'class': r.choice(['Cash_Karp', 'ESDIRK43', 'Heun_Euler']) if not which.startswith('lorenz') else 'ESDIRK43', 'params': {}}
+        adname = 'AdaptivityRK'
+        K = 1
+        P = 1
+    else:
+        sweeper = {'class': 'generic_implicit', 'params': {'num_nodes': r.choice([2, 3]), 'quad_type': 'RADAU-RIGHT', 'QI': r.choice(['IE', 'LU'])}}
+        adname = 'Adaptivity'
+    cfg = {
+        'P': P,
+        'controller': {'mssdc_jac': False, 'predict_type': None, 'all_to_done': False},
+        'problem': prob,
+        'sweeper': sweeper,
+        'level': {'dt': dt, 'restol': -1.0},
+        'step': {'maxiter': K},
+        'transfer': None,
+        'cc': [[adname, ad], ['BasicRestartingNonMPI', br]],
+        'hooks': [],
+        'run': {'t0': 0.0, 'Tend': T, 'u0': 'exact'},
+    }
+    return {'engine': 'blocksim', 'config': cfg, 'plugins': ['MonFirst', 'MonRaw', 'MonLim'], 'faults': {}, 'max_events': 200000, 'max_blocks': 600, 'axis_kind': 'adaptive_real'}
